@@ -109,3 +109,23 @@ func H_C08_batch0() {
 		vAssert("C08.batch0.numpending", g.NumPending() == 0)
 	})
 }
+
+// C05 on batches: Wait on the batch handle returns once every item has finished (and not before).
+func H_C05_batchwait() {
+	g := newGroupJob[int](2)
+	j1 := g.newJob(1, jobConfigs{Id: "a"})
+	j2 := g.newJob(2, jobConfigs{Id: "b"})
+	f1, f2, waited := false, false, false
+	go func() { f1 = true; j1.changeStatus(finished); j1.Close() }()
+	go func() { f2 = true; j2.changeStatus(finished); j2.Close() }()
+	go func() {
+		g.Wait()
+		vAssert("C05.batch-wait-not-early", f1 && f2)
+		waited = true
+	}()
+	vAtQuiescence(func() {
+		vReach("C05.batchwait.quiescent")
+		vAssert("C05.batch-wait-returns", waited)
+		vAssert("C05.batch-numpending-zero", g.NumPending() == 0)
+	})
+}
